@@ -100,10 +100,14 @@ def gen_pack(rng, world, flavour=None, allow_iterative=True):
     for u in unary_pool:
         r = rng.random()
         if r < 0.45:
-            u = dict(u, mask=_mask(rng, 0.15), lazy=lazy())
+            u = dict(u, mask=_mask(rng, 0.15), lazy=lazy(), two_way=rng.random() < 0.7)
             (inferral if rng.random() < 0.7 else initial).append(u)
             if u["t"] == "TrackLetter":
                 track_used = True
+            if rng.random() < 0.2:
+                # the same strategy again with the other declaration: the same (parent, child)
+                # key then arrives both as a one-way and as a two-way rule
+                initial.append(dict(u, two_way=not u["two_way"], mask=None, lazy=False))
     rng.shuffle(inferral)
     exp_mask = _mask(rng, 0.35)
     r = rng.random()
@@ -242,6 +246,7 @@ class Sim:
         self.rng = SimRandom(R["rng"]["policy"], R["rng"]["seed"])
         self.packets = 0
         self.cur_label = None
+        self.armed = None
         self.slice_packets = 0
         self.budgets = []
         self.tail_budget = None
@@ -287,7 +292,9 @@ class Sim:
         ctx = self.ctx
         if kind == "q.next":
             wp = p[0]
+            self.check_last_packet()
             self.cur_label = wp.label
+            self.arm_packet(wp)
             self.packets += 1
             self.slice_packets += 1
             self.clock.event()
@@ -316,6 +323,7 @@ class Sim:
         elif kind == "q.noinf":
             self._q(lambda: self.qmon.on_noinf(p[0]))
         elif kind == "q.exhausted":
+            self.check_last_packet()
             ctx.ev("exhausted")
             if self.record:
                 self.trace.append(("exhausted",))
@@ -327,6 +335,32 @@ class Sim:
             self.on_add_pre(*p)
         elif kind == "db.add":
             self.on_add_post(*p)
+
+    # -- C17: a packet that was handed out must be processed ------------------
+    def arm_packet(self, wp):
+        css = self.searcher
+        self.armed = None
+        if css is None or self.focus not in ("C17", "ALL"):
+            return
+        del WW.CALL_LOG[:]
+        if not css.expand_verified and css.ruledb.is_verified(wp.label):
+            return  # the searcher skips verified labels
+        if wp.inferral and wp.label in css.inferral_expanded:
+            return
+        c = css.classdb.get_class(wp.label)
+        self.armed = (wp.label, strat_id(wp.strategies[0]), c.key(), self.packets + 1)
+
+    def check_last_packet(self):
+        armed, self.armed = getattr(self, "armed", None), None
+        if armed is None:
+            return
+        label, sid, key, n = armed
+        if (sid, key) not in WW.CALL_LOG:
+            raise Violation(
+                "C17:packet-not-processed",
+                f"packet #{n} ({label}, {sid}) was handed out but the strategy was never applied to the class "
+                f"(the work is lost: the queue will not hand it out again)",
+            )
 
     def _q(self, f):
         if self.focus not in ("C16", "C17", "ALL"):
@@ -434,6 +468,7 @@ class Sim:
         try:
             spec = css.auto_search(**kw)
         except ExceededMaxtimeError:
+            self.check_last_packet()
             self.ctx.fault("time_limit_interrupt")
             self.ctx.probe("maxtime_raised")
             self.ctx.ev("auto", "maxtime")
@@ -465,6 +500,7 @@ def exec_ops(sim, R, ctx, on_spec, ops=None):
             elif k == "level":
                 try:
                     css.do_level()
+                    sim.check_last_packet()
                     ctx.ev("level")
                 except NoMoreClassesToExpandError:
                     ctx.ev("level", "nomore")
@@ -512,8 +548,10 @@ def exec_ops(sim, R, ctx, on_spec, ops=None):
             else:
                 raise ValueError(k)
         except PacketCap:
+            sim.armed = None
             ctx.probe("packet_cap")
             return "capped"
+    sim.check_last_packet()
     return result
 
 
